@@ -100,6 +100,15 @@ def build(cfg, om=None):
         model, variables, mc = opt.add_variables_and_constraints_to_model(model, variables, consts, cfg["opt"])
         M.opt, M.model, M.V, M.consts, M.tc, M.S, M.growth = opt, model, variables, consts, tc, S, growth
         M.cons = dict(model.cons)
+        first_vars = list(SI.REG.vars)
+        if cfg.get("stages"):
+            # the real multi-stage driver: first solve, floor on the optimum, "best to humans" solve, resilient-food floor, smoothing solve
+            M.first_value = opt.run_optimizations_on_constraints(model, variables, consts, cfg["opt"])
+            M.snapshots = list(SI.REG.snapshots)
+            M.values = dict(SI.REG.values)
+            M.objvals = list(SI.REG.objvals)
+            M.all_vars = list(SI.REG.vars)
+            SI.REG.vars = first_vars
         M.vars = list(SI.REG.vars)
         M.bounds = [v.z >= q(v.lowBound) for v in M.vars if v.lowBound is not None] + [v.z <= q(v.upBound) for v in M.vars if v.upBound is not None]
         M.unbounded_below = [v.name for v in M.vars if v.lowBound is None]
